@@ -57,6 +57,9 @@ type c21Case struct {
 	// boundary list (same source position) and its metric replaces the old one
 	// in the store, as a reload does; then more observations follow
 	Reload []c21F `json:"reload,omitempty"`
+	// IntPath: the program assigns an integer capture to the histogram (the
+	// VM's integer store) instead of float($1); line observations are integers
+	IntPath bool `json:"int_path,omitempty"`
 }
 
 func c21Lit(f float64) string {
@@ -219,6 +222,13 @@ func runC21x(c c21Case, st *vstat.Stats) *vstat.Failure {
 	} else {
 		src = "histogram h buckets " + strings.Join(lits, ", ") + "\n/^(\\S+)$/ {\n  h = float($1)\n}\n"
 	}
+	if c.IntPath {
+		if c.Keyed {
+			src = "histogram h by k buckets " + strings.Join(lits, ", ") + "\n/^(\\S+) (?P<v>-?\\d+)$/ {\n  h[$1] = $v\n}\n"
+		} else {
+			src = "histogram h buckets " + strings.Join(lits, ", ") + "\n/^(?P<v>-?\\d+)$/ {\n  h = $v\n}\n"
+		}
+	}
 	name := "c21.mtail"
 	obj, err := hx.Compile(name, src)
 	if err != nil {
@@ -305,6 +315,9 @@ func runC21x(c c21Case, st *vstat.Stats) *vstat.Failure {
 		switch o.Via {
 		case "line":
 			line := c21Text(val)
+			if c.IntPath {
+				line = strconv.FormatInt(int64(val), 10)
+			}
 			if c.Keyed {
 				line = key + " " + line
 			}
@@ -599,6 +612,18 @@ func TestC21(t *testing.T) {
 				}
 				c.Obs = keep
 				hasNaN = false
+			}
+			if rapid.IntRange(0, 3).Draw(rt, "intpath") == 0 {
+				// integer observations through the VM's integer store
+				c.IntPath = true
+				for i := range c.Obs {
+					v := float64(c.Obs[i].V)
+					if math.IsNaN(v) || math.IsInf(v, 0) || math.Abs(v) > 1e15 {
+						v = 0
+					}
+					c.Obs[i].V = c21F(math.Round(v))
+				}
+				st.Class("integer-observations")
 			}
 			switch rapid.IntRange(0, 7).Draw(rt, "variant") {
 			case 0:
